@@ -620,7 +620,7 @@ func checkDeleteLoc(o *Out, l gts.Location, i, n, L int) {
 	})
 	now := den(got)
 	amb := hasAmbiguous(l)
-	if !amb && !denEq(dedupAdj(want), dedupAdj(now)) {
+	if !denEq(dedupAdj(want), dedupAdj(now)) {
 		if k1After(l, op) {
 			o.KnownFinding("K1")
 		} else {
@@ -847,9 +847,6 @@ func checkSliceSeq(o *Out, hs gts.Sequence, s, e int, res string) {
 			if len(wantDen) > 0 {
 				o.Violate("slice-dropped-overlapping-feature", line, f.Key)
 			}
-			continue
-		}
-		if hasAmbiguous(f.Loc) {
 			continue
 		}
 		if !denEq(dedupAdj(wantDen), dedupAdj(den(g.Loc))) {
@@ -1314,12 +1311,12 @@ func checkUndo(o *Out, op string, hs gts.Sequence, l gts.Location, i, n int, bac
 		o.Violate("feature-lost", line, "")
 		return
 	}
-	if hasAmbiguous(l) {
-		return
-	}
 	if !denEq(dedupAdj(den(g.Loc)), dedupAdj(den(l))) {
 		o.Violate("feature-not-restored", line, fmt.Sprintf("got %s want %s", locSx(g.Loc), locSx(l)))
 		return
+	}
+	if hasAmbiguous(l) {
+		return // an ambiguous span carries no partial markers
 	}
 	a5, a3 := outerPartials(l)
 	b5, b3 := outerPartials(g.Loc)
@@ -1337,9 +1334,6 @@ func checkConcat(o *Out, hs gts.Sequence, l gts.Location, bounds []int, pieces [
 	out := parseSeq(r[3:])
 	if !bytes.Equal(out.Bytes(), hs.Bytes()) {
 		o.Violate("residues-not-restored", line, string(out.Bytes()))
-	}
-	if hasAmbiguous(l) {
-		return
 	}
 	// the pieces of the feature together denote exactly the residues of the
 	// original, each on its original strand
